@@ -45,6 +45,10 @@ struct Scenario {
     settings: Vec<String>, // [data_bits, flow, parity, stop] by name; baud in `baud`
     #[serde(default)]
     baud: u32,
+    /// "" = a script judged by ServerSessionTrace; "spacing" = the silent interval between transmissions (SerialTiming)
+    #[serde(default)]
+    kind: String,
+    #[serde(default)]
     steps: Vec<Step>,
 }
 
@@ -146,6 +150,72 @@ fn run_scenario(sc: &Scenario, sink: &Sink, rt: &tokio::runtime::Runtime) {
     sink.emit(json!({"e":"q","zero_space_reads":0}));
 }
 
+fn crc16(data: &[u8]) -> u16 {
+    let mut crc: u16 = 0xFFFF;
+    for b in data {
+        crc ^= *b as u16;
+        for _ in 0..8 {
+            crc = if crc & 1 != 0 { (crc >> 1) ^ 0xA001 } else { crc >> 1 };
+        }
+    }
+    crc
+}
+
+/// several requests in one write on a slow line: when has each reply arrived?
+fn run_spacing(sc: &Scenario, sink: &Sink, rt: &tokio::runtime::Runtime) {
+    let frames = 3usize;
+    let pty = match open_pty() {
+        Some(p) => p,
+        None => {
+            sink.emit(json!({"e":"stuck","why":"no pseudo-terminal available"}));
+            return;
+        }
+    };
+    let mut map = ServerHandlerMap::new();
+    map.add(UnitId::new(1), DbHandler::new(1, sc.seed, &[], Sink::null()).wrap());
+    let (handle, task) = create_rtu_server_task(
+        &pty.path,
+        settings_of(sc),
+        doubling_retry_strategy(Duration::from_millis(50), Duration::from_millis(50)),
+        map,
+        decode_level(&sc.decode),
+    );
+    let mut handle = handle;
+    let join = rt.spawn(task.run());
+    if !pty.wait_configured(Duration::from_secs(15)) {
+        sink.emit(json!({"e":"stuck","why":"the device was not opened and configured"}));
+        return;
+    }
+    std::thread::sleep(Duration::from_millis(30));
+    let mut bus = Vec::new();
+    for k in 0..frames {
+        // read one holding register at address k: the reply is 7 bytes
+        let mut f = vec![1u8, 3, 0, k as u8, 0, 1];
+        let c = crc16(&f);
+        f.push(c as u8);
+        f.push((c >> 8) as u8);
+        bus.extend_from_slice(&f);
+    }
+    if !pty.write_all(&bus) {
+        sink.emit(json!({"e":"stuck","why":"the bus does not take the bytes"}));
+        return;
+    }
+    let t0 = Instant::now();
+    let mut got = Vec::new();
+    let mut at: Vec<u128> = Vec::new();
+    while at.len() < frames && t0.elapsed() < Duration::from_secs(20) {
+        pty.read_some(&mut got);
+        while at.len() < frames && got.len() >= 7 * (at.len() + 1) {
+            at.push(t0.elapsed().as_micros());
+        }
+        std::thread::sleep(Duration::from_micros(500));
+    }
+    let gaps: Vec<u64> = at.windows(2).map(|w| (w[1] - w[0]) as u64).collect();
+    sink.emit(json!({"e":"spacing","baud":sc.baud,"frames":at.len(),"expected_frames":frames,"gaps_us":gaps}));
+    let _ = rt.block_on(handle.shutdown());
+    let _ = rt.block_on(async { tokio::time::timeout(Duration::from_secs(3), join).await });
+}
+
 fn main() {
     let args: Vec<String> = std::env::args().collect();
     let scripts = std::fs::File::open(&args[1]).expect("scripts");
@@ -163,6 +233,11 @@ fn main() {
         }
         let sc: Scenario = serde_json::from_str(&line).expect("scenario json");
         wd.scenario(sc.id);
+        if sc.kind == "spacing" {
+            run_spacing(&sc, &sink, &rt);
+            n += 1;
+            continue;
+        }
         run_scenario(&sc, &sink, &rt);
         n += 1;
     }
